@@ -373,7 +373,7 @@ def run_task(task):
                 for r in (0, 1, 2):
                     for assign in itertools.product((0, 1), repeat=r * ncol):
                         rows = [[Y.rep_cells(kinds[j])[assign[i * ncol + j]] for j in range(ncol)] for i in range(r)]
-                        for hdr in (None, [['k0', 'v 0'], ['k1', 5]], [['comments', 'v 1'], ['keywords', 5]]):   # 'comments': a meta keyword astropy's own ascii writers treat specially
+                        for hdr in (None, [['k0', 'v 0'], ['k1', 5]], [['comments', 'v 1'], ['keywords', 5]], [['zero', 0], ['fzero', 0.0], ['empty', '']]):   # 'comments': a meta keyword astropy's own ascii writers treat specially
                             _do(acc, {'entry': task['entry'], 'ustr': task['ustr'], 'hdr': hdr,
                                       'tables': [{'name': 'abc', 'cols': cols, 'rows': rows}]}, d)
             if ncol == 1 and not task['ustr']:
